@@ -27,4 +27,10 @@ def run(tier: str, seed: int):
         serial = list(F.fam_limits(1, 4, batch=1)) + list(F.fam_limits_special(3))
         rule = 'n<=4 x {None,1,2,3} x faults x stutter, batch<=3; n=5'
         e3c = list(F.fam_e3(F.fam_limits(1, 3, tnames=('TA', 'TB', 'TC'), faults=True), workers=(1, 2, 3, None), cpu_count=3)) + list(F.fam_e3(F.fam_limits(4, 4, tnames=('TA', 'TB')), workers=(2, 3), cpu_count=3, liveness=False)) + list(F.fam_e3(F.fam_limits(2, 3, tnames=('TA', 'TB')), workers=(1, 2), linger=True)) + list(F.fam_e3(F.fam_limits_special(3), workers=(2, 3), cpu_count=3)) + list(F.fam_e3(F.fam_inherit(3), workers=(2, 3), cpu_count=3, liveness=False))
+    # the Lab object has been through a call that a failure aborted while limited-type tasks were in flight
+    cfgs = list(cfgs) + list(F.fam_history_abort(2))
+    serial = list(serial) + list(F.fam_history_abort(2))
+    e3c = list(e3c) + list(F.fam_e3([c for c in F.fam_history_abort(2) if c.spec.n <= 2], workers=(3,), cpu_count=3, backends=('fork',), liveness=False))
+    cfgs = cfgs + list(F.fam_variants(2))       # dependencies held several times (placements)
+    serial = serial + list(F.fam_variants(2))
     return run_e2_property('C05', tier, seed, cfgs, serial_configs=serial, e3_configs=e3c, barrier_cases=__import__('verif_lt.e4b', fromlist=['cases']).cases(tier), real_cases=list(F.fam_real(F.real_bases('limits'), workers=(1, 2))), rule=rule, assumptions=ASSUME)
